@@ -23,6 +23,23 @@ class VwNT(typing.NamedTuple):
     first: typing.Any
     second: typing.Any = None
 
+@dataclasses.dataclass
+class VwDCInit:
+    """annotations that are not fields: an init-only variable"""
+    a: typing.Any
+    b: typing.Any = None
+    scale: dataclasses.InitVar[int] = 2
+
+class VwAnnBase:
+    revision: int = 0
+    source: str = "n/a"
+
+@dataclasses.dataclass
+class VwDCOnBase(VwAnnBase):
+    """a dataclass on a plain annotated base: the base's annotated class attributes are not dataclass fields"""
+    a: typing.Any
+    b: typing.Any = None
+
 class VwDeepHints:
     """annotated attributes beyond the constructor's parameters, one of them nested several levels deep"""
     name: typing.Any
@@ -163,9 +180,10 @@ class VwSame:
         self.y = b
 '''
 
-CLASSES = ["VwDeepHints", "VwDeepHints", "VwDCFalsy", "VwNTFalsy", "VwSlotsFalsy", "VwDC", "VwNT", "VwNT1", "VwPlain", "VwPlainCV", "VwSlots", "VwSlotsPos", "VwSlotsPos", "VwSlotsPosSub", "VwSlotsOne", "VwPosSlots", "VwPosVars", "VwVars", "VwVarsDyn", "VwVarsDyn", "vw0same", "vw1same"]
+CLASSES = ["VwDCInit", "VwDCOnBase", "VwDeepHints", "VwDeepHints", "VwDCFalsy", "VwNTFalsy", "VwSlotsFalsy", "VwDC", "VwNT", "VwNT1", "VwPlain", "VwPlainCV", "VwSlots", "VwSlotsPos", "VwSlotsPos", "VwSlotsPosSub", "VwSlotsOne", "VwPosSlots", "VwPosVars", "VwVars", "VwVarsDyn", "VwVarsDyn", "vw0same", "vw1same"]
 # expected public (field, attribute) names per class, in order
 PUBLIC = {
+    "VwDCInit": ["a", "b"], "VwDCOnBase": ["a", "b"],
     "VwDeepHints": ["name", "retries", "routes"],
     "VwDCFalsy": ["a", "b"], "VwNTFalsy": ["first", "second"], "VwSlotsFalsy": ["a", "b"],
     "VwDC": ["a", "b"], "VwNT": ["first", "second"], "VwNT1": ["only"], "VwPlain": ["a", "b"], "VwPlainCV": ["a"],
